@@ -31,6 +31,8 @@ pub fn families(quick: bool) -> Vec<(String, Family, usize)> {
         v.push(("B@2".to_string(), Family { universe: gen::universe_b(), vars_per_type: 1, loops: true }, 2));
         v.push(("C@3".to_string(), Family { universe: gen::universe_c(), vars_per_type: 1, loops: false }, 3));
     }
+    // degenerate sizes last, so that the slices other checks take of this list keep their meaning
+    v.push(("D@1".to_string(), Family { universe: gen::universe_d(), vars_per_type: 1, loops: true }, 1));
     v
 }
 
@@ -70,7 +72,7 @@ pub fn run(rep: &Report) -> i32 {
         "bounds",
         json!({"family_depths": fams.iter().map(|f| format!("{} depth {}", f.0, f.2)).collect::<Vec<_>>(), "witness_assignments_cap": if rep.is_quick() { "32" } else { "256 (4096 for every 16th program by text hash)" }, "expect_neighbours": 2, "debug_flags": [false, true]}),
     );
-    rep.set("alphabets", json!({"universe_A": gen::universe_a().iter().map(|t| t.render()).collect::<Vec<_>>(), "universe_B": gen::universe_b().iter().map(|t| t.render()).collect::<Vec<_>>(), "universe_C": gen::universe_c().iter().map(|t| t.render()).collect::<Vec<_>>()}));
+    rep.set("alphabets", json!({"universe_A": gen::universe_a().iter().map(|t| t.render()).collect::<Vec<_>>(), "universe_B": gen::universe_b().iter().map(|t| t.render()).collect::<Vec<_>>(), "universe_D": gen::universe_d().iter().map(|t| t.render()).collect::<Vec<_>>(), "universe_C": gen::universe_c().iter().map(|t| t.render()).collect::<Vec<_>>()}));
     let forms: Mutex<BTreeSet<&'static str>> = Mutex::new(BTreeSet::new());
     let seen: Mutex<std::collections::HashSet<u64>> = Mutex::new(Default::default());
     // deep environments: n live bindings, every one of them read back (flat blocks, nested blocks, tuple patterns)
